@@ -100,6 +100,11 @@ reg = {
         "tableverify": {"overlay": "units/tableverify.ovl", "canaries": ["canary_tableverify"],
                         "helpers": ["clone", "get_page", "new", "verify_checksum", "fixed_width", "fixed_width_with", "next", "parse_subtree_roots", "value", "range", "hint"]},
         # the release of a deleted table's pages (fragment of TableTreeMut::delete_table)
+        "dbopen": {"overlay": "units/dbopen.ovl", "canaries": ["canary_dbopen"],
+                   "helpers": ["from", "new", "aborted", "next", "load_allocator_state", "get_last_committed_transaction_id", "commit", "begin_writable", "get_allocator_state_table", "do_repair"]},
+        "integrity": {"overlay": "units/integrity.ovl", "canaries": ["canary_integrity"],
+                      "helpers": ["from", "next", "allocator_hash", "get_data_root", "get_system_root", "clear_cache_and_reload", "get_last_committed_transaction_id", "commit",
+                                  "clear_needs_repair", "begin_writable", "reserve_repair_transaction_id", "do_repair_quiet", "roots_differ"]},
         "openproto": {"overlay": "units/openproto.ovl", "canaries": ["canary_openproto"],
                       "helpers": ["invalid_data", "from", "max", "div_ceil_u32", "fmt_msg", "new", "calculate", "len", "to_bytes", "from_bytes", "recovery_required", "finalize",
                                   "to_vec", "try_into", "copy_from_slice", "mem_mut", "raw_file_len", "read_direct", "resize", "write", "flush"]},
@@ -263,11 +268,13 @@ P["C01"] = {
               {"unit": "alloc", "functions": ["TransactionalMemory::commit", "TransactionalMemory::non_durable_commit", "TransactionalMemory::try_shrink", "DatabaseHeader::*", "lemma_xor1",
                                               "Mutex::lock", "drop", "TransactionId::gt_id"]},
               {"unit": "dbverify", "functions": ["Database::verify_checksums"]},
-              {"unit": "repair", "functions": ["Database::do_repair", "Database::primary_verifies"]}],
-    "assumptions": ["R1 (repair unit): whether the trees of the current primary slot verify is a ghost flag of the page-store model (verify_primary_checksums returns it, and reports a Corrupted error only for trees that do not verify - the real walk is verified in dbverify / tableverify / merkle); repair_primary_corrupted swaps the two slots; rebuild_allocator_state and clear_recovery_required change only their own flag; the repair callback may do anything to the session it is handed (rule RX turns `&(dyn Fn(&mut RepairSession) + 'static)` into `&impl Fn(&mut RepairSession)`, `&mut Arc<TransactionalMemory>` into `&mut TransactionalMemory`, and the array pattern `let [a, b] = e?` into two index reads)",
+              {"unit": "repair", "functions": ["Database::do_repair", "Database::primary_verifies"]},
+              {"unit": "dbopen", "functions": ["Database::open_decision"]},
+              {"unit": "openproto", "functions": ["TransactionalMemory::open_protocol"]}],
+    "assumptions": ["D1 (dbopen unit): the page store logs load / repair / commit / begin_writable; get_allocator_state_table answers Some exactly when the saved state is valid (verified in unit openstate); do_repair yields the repaired roots (verified in unit repair); the repair callback may do anything to the session it is handed; rule RX: the array pattern became two index reads; `mem` is the page store itself instead of an Arc around it", "O1 (openproto unit): see C20", "R1 (repair unit): whether the trees of the current primary slot verify is a ghost flag of the page-store model (verify_primary_checksums returns it, and reports a Corrupted error only for trees that do not verify - the real walk is verified in dbverify / tableverify / merkle); repair_primary_corrupted swaps the two slots; rebuild_allocator_state and clear_recovery_required change only their own flag; the repair callback may do anything to the session it is handed (rule RX turns `&(dyn Fn(&mut RepairSession) + 'static)` into `&impl Fn(&mut RepairSession)`, `&mut Arc<TransactionalMemory>` into `&mut TransactionalMemory`, and the array pattern `let [a, b] = e?` into two index reads)",
                     "T9: TransactionalMemory::write_header hands the 320-byte image of exactly the header it is given to the storage layer, and PagedCachedFile::flush makes everything handed over before it durable; each appends its event to the ghost trace on success and its event or nothing on failure (assumed contracts of the storage model in the alloc unit; the page cache itself is not verified)",
                     "M1: std::sync::Mutex is modelled for ONE thread: lock() never fails and lends the protected value, drop(guard) returns it unchanged; the functions that reach state through &self take &mut self in the unit (rule RX on the signature); DatabaseHeader::clone copies every field; a 64-bit target (global size_of usize == 8)"],
-    "explanation": "Kernel of the crash argument of docs/design.md: (K5) the REAL body of TransactionalMemory::commit (whole function, over a one-thread model of the state mutex and a ghost trace of the storage events) produces exactly W(h1) [F if two_phase] W(h2) F [Resize(len) if the commit trimmed the file], where h1 is the header (after the optional trim: same slots and flags, never a longer layout) with the new commit staged in the secondary slot and the OLD god byte, and h2 differs from h1 only in the primary bit and the 2PC bit; on a failing write or sync only a prefix of that sequence reaches the storage (the flip never precedes the sync it depends on, the file is cut only after the header with the shorter layout is durable); on success h2 is published, reads return to the primary and the unpersisted set is emptied; on failure the published header is NOT the new commit; with the I/O latch set nothing happens at all; non_durable_commit stages the commit in the in-memory secondary slot, sets read_from_secondary, adds the pages to the unpersisted set and reaches the storage with nothing; (R) the REAL decision procedure of crash recovery (Database::do_repair, primary_verifies): a repaired database runs on a primary slot whose trees verify; the other slot is used only when the primary did not verify, at most once, and never after a two-phase commit (whose primary must be intact: Corrupted is reported instead); the recovery flag is cleared only after the allocator state was rebuilt, and every failure - corruption of both slots, I/O error, abort by the callback - leaves it set so that the next open repairs again; a Corrupted error from the walk counts as 'does not verify', any other error propagates; (K1) a written commit slot decodes to itself and verifies; (K2) the commit point is ONE byte: flipping primary / 2PC / recovery flags changes only byte 9; (K3) slot selection never returns a slot that failed verification, keeps the primary under 2PC, otherwise the newer valid slot wins; (K4) with recovery_required the layout is rebuilt from the file length whatever the stored counts were (page size 4096; the unbounded counterpart is Verus DatabaseLayout::recalculate: the rebuilt layout never extends past the file); (K6) transaction ids strictly increase and reserving a repair id never lowers the next id.",
+    "explanation": "Kernel of the crash argument of docs/design.md: (K5) the REAL body of TransactionalMemory::commit (whole function, over a one-thread model of the state mutex and a ghost trace of the storage events) produces exactly W(h1) [F if two_phase] W(h2) F [Resize(len) if the commit trimmed the file], where h1 is the header (after the optional trim: same slots and flags, never a longer layout) with the new commit staged in the secondary slot and the OLD god byte, and h2 differs from h1 only in the primary bit and the 2PC bit; on a failing write or sync only a prefix of that sequence reaches the storage (the flip never precedes the sync it depends on, the file is cut only after the header with the shorter layout is durable); on success h2 is published, reads return to the primary and the unpersisted set is emptied; on failure the published header is NOT the new commit; with the I/O latch set nothing happens at all; non_durable_commit stages the commit in the in-memory secondary slot, sets read_from_secondary, adds the pages to the unpersisted set and reaches the storage with nothing; (R) the REAL decision procedure of crash recovery (Database::do_repair, primary_verifies): a repaired database runs on a primary slot whose trees verify; the other slot is used only when the primary did not verify, at most once, and never after a two-phase commit (whose primary must be intact: Corrupted is reported instead); the recovery flag is cleared only after the allocator state was rebuilt, and every failure - corruption of both slots, I/O error, abort by the callback - leaves it set so that the next open repairs again; a Corrupted error from the walk counts as 'does not verify', any other error propagates; (N) a NEW file gets its magic number only in a second header write, after the initialised header was flushed (REAL open protocol of TransactionalMemory::new, unit openproto); on open, a full repair ends with a two-phase commit of the repaired roots before the file is marked open-for-writing (REAL decision of Database::new, unit dbopen); (K1) a written commit slot decodes to itself and verifies; (K2) the commit point is ONE byte: flipping primary / 2PC / recovery flags changes only byte 9; (K3) slot selection never returns a slot that failed verification, keeps the primary under 2PC, otherwise the newer valid slot wins; (K4) with recovery_required the layout is rebuilt from the file length whatever the stored counts were (page size 4096; the unbounded counterpart is Verus DatabaseLayout::recalculate: the rebuilt layout never extends past the file); (K6) transaction ids strictly increase and reserving a repair id never lowers the next id.",
     "not_decided": "2^W write subsets, page data and checksums reaching the cache before the first header write (finalize_dirty_checksums, whole-program), what the page cache does with writes and flushes (assumed, T9), begin_writable / clear_recovery_required / flush_shutdown_header (they hold the state lock across calls on self, which the one-thread Mutex model cannot express), WriteTransaction::durable_commit above TransactionalMemory::commit, concurrency, histories, recovery re-crash",
 }
 P["C12"] = {
@@ -275,12 +282,13 @@ P["C12"] = {
     "verus": [{"unit": "dbverify", "functions": ["Database::verify_primary_checksums", "Database::verify_checksums"]},
               {"unit": "tableverify", "functions": ["TableTree::verify_checksums", "verify_tree_and_subtree_checksums"]},
               {"unit": "repair", "functions": ["Database::do_repair", "Database::primary_verifies"]},
-              {"unit": "merkle", "functions": ["RawBtree::verify_checksum", "RawBtree::verify_checksum_helper"]}],
-    "assumptions": ["tableverify unit: raw_ok(root, key width, value width) stands for RawBtree::new(root, ..).verify_checksum() == Ok(true) (what the merkle unit proves about the real walk); the catalog's entries, the pages of a tree (AllPageNumbersBtreeIter) and the subtree roots stored in a page (parse_subtree_roots) are uninterpreted; the two iterators are models with an inherent next() yielding their sequence in order (rule R18 desugars the for loops over them, rule R17 the let-chain)",
+              {"unit": "merkle", "functions": ["RawBtree::verify_checksum", "RawBtree::verify_checksum_helper"]},
+              {"unit": "integrity", "functions": ["Database::verify_and_repair_durable"]}],
+    "assumptions": ["I1 (integrity unit): what the reload and the repair find are functions of the state the check starts from; rule RX: Arc::get_mut(..).unwrap() -> &mut, the do_repair call with its silent callback and error-narrowing map_err closure -> a model call, the array comparison -> an element-wise helper (verified), the array pattern -> two index reads", "tableverify unit: raw_ok(root, key width, value width) stands for RawBtree::new(root, ..).verify_checksum() == Ok(true) (what the merkle unit proves about the real walk); the catalog's entries, the pages of a tree (AllPageNumbersBtreeIter) and the subtree roots stored in a page (parse_subtree_roots) are uninterpreted; the two iterators are models with an inherent next() yielding their sequence in order (rule R18 desugars the for loops over them, rule R17 the let-chain)",
                     "merkle unit: pages, BranchAccessor::{new, count_children, child_page, child_checksum}, PageResolver::get_page, PageImpl::memory and leaf_checksum / branch_checksum are abstract: assumed contracts over uninterpreted functions of the page number (kind, recomputed checksum, child table); <[T]>::contains is given no specification",
                     "dbverify unit: TableTree::verify_checksums returns Ok(b) with b == tree_ok(root of the tree it was built from) (uninterpreted predicate; the page-level walk itself is not verified here); TransactionalMemory::get_data_root / get_system_root return the roots of the primary slot"],
     "kani": [K["C12-K1K2"], K["C12-K2b"], alias("C01-K3", "C12-K3"), K["C12-K4"]],
-    "explanation": "Chain: Database::verify_checksums (dbverify: both trees) -> TableTree::verify_checksums (tableverify: the REAL catalog walk reports clean exactly when the catalog tree verifies AND every table it lists verifies with the key / value widths of its definition - no table is skipped, an empty table does not end the walk) -> verify_tree_and_subtree_checksums (tableverify: a multimap table is clean exactly when its own tree verifies AND every per-key subtree in every one of its pages verifies as a tree keyed by the table's VALUE width) -> RawBtree::verify_checksum (merkle: every page reachable from the root hashes to the checksum stored for it). Kernel: the corrupted flag of a commit slot is exactly 'stored checksum != computed' for all 2^1016 slot images; a slot that failed verification is written back verbatim (never re-serialised as valid) until a new commit overwrites it; selection never returns a corrupt slot; a version byte other than 3 is never parsed; the REAL page-level walk RawBtree::verify_checksum(_helper) returns Ok(true) only if the checksum of EVERY page of the subtree was recomputed and matched the checksum its parent (or the root header) stores for it, for trees of any shape up to the depth limit (soundness of the Merkle walk, over an abstract page store); the REAL glue Database::verify_primary_checksums / verify_checksums answers Ok(true) only if BOTH the data tree and the system tree of the primary slot verified (against assumed callee contracts).",
+    "explanation": "(I) the REAL second half of check_integrity_inner (fragment, unit integrity): Ok(true) is returned only if the reload found nothing to reconcile, the repair kept both roots, the rebuilt allocator state hashes like the live one and no non-durable commit is being rolled back; anything else is reported as repaired (Ok(false)) after the repaired roots were committed; Chain: Database::verify_checksums (dbverify: both trees) -> TableTree::verify_checksums (tableverify: the REAL catalog walk reports clean exactly when the catalog tree verifies AND every table it lists verifies with the key / value widths of its definition - no table is skipped, an empty table does not end the walk) -> verify_tree_and_subtree_checksums (tableverify: a multimap table is clean exactly when its own tree verifies AND every per-key subtree in every one of its pages verifies as a tree keyed by the table's VALUE width) -> RawBtree::verify_checksum (merkle: every page reachable from the root hashes to the checksum stored for it). Kernel: the corrupted flag of a commit slot is exactly 'stored checksum != computed' for all 2^1016 slot images; a slot that failed verification is written back verbatim (never re-serialised as valid) until a new commit overwrites it; selection never returns a corrupt slot; a version byte other than 3 is never parsed; the REAL page-level walk RawBtree::verify_checksum(_helper) returns Ok(true) only if the checksum of EVERY page of the subtree was recomputed and matched the checksum its parent (or the root header) stores for it, for trees of any shape up to the depth limit (soundness of the Merkle walk, over an abstract page store); the REAL glue Database::verify_primary_checksums / verify_checksums answers Ok(true) only if BOTH the data tree and the system tree of the primary slot verified (against assumed callee contracts).",
     "not_decided": "every byte position of every image; that the catalog range iterator and AllPageNumbersBtreeIter really yield every entry / page (B-tree cursors); that leaf_checksum/branch_checksum hash every byte an accessor can return (bounded C10-P3 only); XXH3 being XXH3",
 }
 P["C10"] = {
@@ -364,9 +372,12 @@ P["C11"] = {
               {"unit": "txcommit", "functions": ["WriteTransaction::abort_inner"]},
               {"unit": "beginwrite", "functions": ["begin_write_with_allocation_policy"]},
               {"unit": "openstate", "functions": ["Database::get_allocator_state_table"]},
-              {"unit": "reload", "functions": ["TransactionalMemory::clear_cache_and_reload", "Mutex::lock"]}],
+              {"unit": "reload", "functions": ["TransactionalMemory::clear_cache_and_reload", "Mutex::lock"]},
+              {"unit": "dbopen", "functions": ["Database::open_decision"]},
+              {"unit": "integrity", "functions": ["Database::verify_and_repair_durable", "roots_differ"]}],
     "kani": [K["C11-R3"], K["C11-K4"], alias("C01-K4b", "C11-K4b")],
-    "explanation": "Kernel: (H) the REAL TransactionalMemory::clear_cache_and_reload (the reload check_integrity() starts with): it reports clean exactly when the primary slot was kept and the stored layout matched the file or merely lagged behind a file that still has the length of the layout this process was running with - so a healthy database reloads clean whatever region counts its header still stores (an aborted transaction grows the file without writing them: the genuine defect repaired by the fix commit, see known_findings.json), while a file whose length changed under the process, or a replaced primary slot, is never reported clean; the header is rewritten and flushed exactly when something was reconciled, both caches are dropped before anything fallible, and the in-memory header, allocator state and unpersisted set are replaced; the REAL finalize reports 'primary kept' and 'stored layout matched' apart, the latter exactly when the stored region counts are the ones rebuilt from the file length (Kani C11-K4, one region geometry - bounded; K4b without recovery flag); (O) the REAL Database::get_allocator_state_table trusts a saved allocator state only when the primary commit was written with two-phase commit, the system tree of the primary holds the table, and the table is current (is_valid_allocator_state) - in every other case the open repairs; (R) rebuild = reset + one mark per reachable page. The REAL TransactionalMemory::reset_allocator_state leaves an allocator state that matches the header's layout with EVERY page free (Allocators::new, BuddyAllocator::new: greedy decomposition, lemma_greedy_all_free); the REAL TransactionalMemory::mark_page_allocated accepts a page number only if it names a block inside an existing region of the layout that was entirely free, then exactly its pages stop being free, every other region is untouched and the state stays consistent with the header; a refused page number (order > 20, region or block out of range, overlap with an allocated page) changes no allocator; the REAL WriteTransaction::abort_inner keeps the repair latch set when the rollback fails part way (its pages stay allocated, so the allocator state is never persisted as clean) and restores it after a complete rollback. record_alloc marks exactly the named block (true iff the block lay inside a free block, which it then no longer does, every other page keeps its state) or refuses with the allocator unchanged, I1 and I2 preserved; (R4) Allocators::resize_to - the reconciliation of a loaded allocator state with the layout of the file being opened - gives every region the size the layout says, keeps wf and TRK, marks dropped regions full and leaves unchanged regions untouched (BuddyAllocator::resize verified; only highest_free_order assumed); the allocator-state key codec orders Region(i) by i and before the tracker and the transaction id, which the snapshot loader's range scans rely on.",
+    "explanation": "Kernel: (H) the REAL TransactionalMemory::clear_cache_and_reload (the reload check_integrity() starts with): it reports clean exactly when the primary slot was kept and the stored layout matched the file or merely lagged behind a file that still has the length of the layout this process was running with - so a healthy database reloads clean whatever region counts its header still stores (an aborted transaction grows the file without writing them: the genuine defect repaired by the fix commit, see known_findings.json), while a file whose length changed under the process, or a replaced primary slot, is never reported clean; the header is rewritten and flushed exactly when something was reconciled, both caches are dropped before anything fallible, and the in-memory header, allocator state and unpersisted set are replaced; the REAL finalize reports 'primary kept' and 'stored layout matched' apart, the latter exactly when the stored region counts are the ones rebuilt from the file length (Kani C11-K4, one region geometry - bounded; K4b without recovery flag); (D) the REAL decision of Database::new (fragment): a saved allocation snapshot is loaded exactly when get_allocator_state_table found one valid for the commit being opened, and then nothing is repaired or committed; otherwise the database is repaired and the repaired roots are committed two-phase, never shrinking, under the next transaction id; the file is marked open-for-writing only after one of the two established the allocator state, and every failure stops before that mark; (I) the REAL second half of check_integrity_inner (fragment): Ok(true) exactly when the reload found nothing to reconcile, the repair kept both roots, the rebuilt allocator state hashes like the live one and no non-durable commit is rolled back - so a healthy database reports clean any number of times - and otherwise the repaired roots are committed two-phase under the next id, which is then reserved; (O) the REAL Database::get_allocator_state_table trusts a saved allocator state only when the primary commit was written with two-phase commit, the system tree of the primary holds the table, and the table is current (is_valid_allocator_state) - in every other case the open repairs; (R) rebuild = reset + one mark per reachable page. The REAL TransactionalMemory::reset_allocator_state leaves an allocator state that matches the header's layout with EVERY page free (Allocators::new, BuddyAllocator::new: greedy decomposition, lemma_greedy_all_free); the REAL TransactionalMemory::mark_page_allocated accepts a page number only if it names a block inside an existing region of the layout that was entirely free, then exactly its pages stop being free, every other region is untouched and the state stays consistent with the header; a refused page number (order > 20, region or block out of range, overlap with an allocated page) changes no allocator; the REAL WriteTransaction::abort_inner keeps the repair latch set when the rollback fails part way (its pages stay allocated, so the allocator state is never persisted as clean) and restores it after a complete rollback. record_alloc marks exactly the named block (true iff the block lay inside a free block, which it then no longer does, every other page keeps its state) or refuses with the allocator unchanged, I1 and I2 preserved; (R4) Allocators::resize_to - the reconciliation of a loaded allocator state with the layout of the file being opened - gives every region the size the layout says, keeps wf and TRK, marks dropped regions full and leaves unchanged regions untouched (BuddyAllocator::resize verified; only highest_free_order assumed); the allocator-state key codec orders Region(i) by i and before the tracker and the transaction id, which the snapshot loader's range scans rely on.",
+    "assumptions": ["H1 (reload unit): the storage is the header bytes on disk, the file length and the trace of what reached it; the parser's verdicts (finalized header, primary kept, stored layout matched) are uninterpreted functions of the bytes read and the file length, the finalized layout is the one rebuilt from the file length (Kani C01-K4 / C11-K4 on the real finalize); what is written through a page handle reaches the file; one-thread Mutex model", "D1 (dbopen unit): the page store logs load / repair / commit / begin_writable; get_allocator_state_table answers Some exactly when the saved state is valid (verified in unit openstate); do_repair yields the repaired roots (verified in unit repair); the repair callback may do anything to the session it is handed; rule RX: the array pattern became two index reads; `mem` is the page store itself instead of an Arc around it", "I1 (integrity unit): what the reload and the repair find are functions of the state the check starts from; rule RX: Arc::get_mut(..).unwrap() -> &mut, the do_repair call with its silent callback and error-narrowing map_err closure -> a model call, the array comparison -> an element-wise helper (verified), the array pattern -> two index reads"],
     "not_decided": "which pages ARE reachable; is_valid_allocator_state's staleness comparison (needs a B-tree); histories and crash points; the tracker's persistent-savepoint pins rebuilt at open (register_persistent_savepoint: one pin per savepoint, also when several savepoints share a transaction) only BOUNDED (native C11-X-pins3)",
 }
 P["C15"] = {
